@@ -91,6 +91,9 @@ func verifC11Gen(t *rapid.T, w *verifC11World) *verifC11Act {
 	}
 	switch kind {
 	case "commit":
+		if op := verifC11MultiNode(t, w); op != nil {
+			return &verifC11Act{A: "commit", Op: op}
+		}
 		return &verifC11Act{A: "commit", Op: verifC11Retarget(t, w.gen.DrawOp(t, verifC11Cfg))}
 	case "acl":
 		return &verifC11Act{A: "acl", Idx: w.gen.NextIdx(t), ACL: verifC11Pick(t, "aclop", []string{
@@ -99,8 +102,27 @@ func verifC11Gen(t *rapid.T, w *verifC11World) *verifC11Act {
 		return &verifC11Act{A: "drain", N: verifC11Pick(t, "ndrain", []int{1, 1, 1, 2, 3})}
 	case "sub":
 		id := w.nextSub
-		return &verifC11Act{A: "sub", Sub: id, Q: verifC11DrawQ(t, w), Token: verifC11Pick(t, "token", []string{"", "TA", "TA", "TB", "TB", "TC"})}
+		q := verifC11DrawQ(t, w)
+		return &verifC11Act{A: "sub", Sub: id, Q: q, Token: verifC11Pick(t, "token", []string{"", "TA", "TA", "TB", "TB", "TC"}), Authz: verifC11DrawAuthz(t, w, q)}
 	case "consume":
+		// a restricted subscriber that shares its buffer with a differently privileged one tends to read first: the
+		// filter of one reader must not change what the next reader of the same buffer item gets
+		var first []int
+		for _, id := range open {
+			s := w.subs[id]
+			if !s.restricted() {
+				continue
+			}
+			for _, id2 := range open {
+				if o := w.subs[id2]; o != s && o.q.id() == s.q.id() && o.authzName != s.authzName {
+					first = append(first, id)
+					break
+				}
+			}
+		}
+		if len(first) > 0 && verifC11Chance(t, "restrictedfirst", 65) {
+			return &verifC11Act{A: "consume", Sub: verifC11Pick(t, "consumer1", first), N: 3}
+		}
 		return &verifC11Act{A: "consume", Sub: verifC11Pick(t, "consumer", open), N: rapid.IntRange(1, 3).Draw(t, "nconsume")}
 	case "detach", "bounce":
 		// prefer a subscriber that follows a buffer which another subscriber keeps alive: only such a client can be
@@ -125,6 +147,50 @@ func verifC11Gen(t *rapid.T, w *verifC11World) *verifC11Act {
 		return &verifC11Act{A: "sleep", N: verifC11Pick(t, "sleep", []int{3, 3, 11})}
 	}
 	panic("unreachable")
+}
+
+// verifC11DrawAuthz picks what the subscriber may read. When another subscriber already follows the same
+// (topic, subject) the new one mostly gets a DIFFERENT visibility (restricted next to privileged).
+func verifC11DrawAuthz(t *rapid.T, w *verifC11World, q *verifC11Q) string {
+	var other *verifC11Sub
+	for _, id := range w.order {
+		if s := w.subs[id]; s != nil && s.open && s.q.id() == q.id() {
+			other = s
+		}
+	}
+	if other != nil && verifC11Chance(t, "authzdiffer", 80) {
+		if other.restricted() {
+			return "all"
+		}
+		return verifC11Pick(t, "authzr", verifC11AuthzNames)
+	}
+	switch k := rapid.IntRange(0, 99).Draw(t, "authzkind"); {
+	case k < 45:
+		return "all"
+	case k < 92:
+		return verifC11Pick(t, "authzr2", verifC11AuthzNames)
+	}
+	return "none"
+}
+
+// verifC11MultiNode sometimes writes the SAME service on several nodes in one transaction (as a batch anti-entropy
+// or Txn write does): the commit then yields one buffer item with several events for that service's subject, which
+// a node-restricted subscriber is partially denied.
+func verifC11MultiNode(t *rapid.T, w *verifC11World) *vs.Op {
+	nodes := w.gen.LiveNodes("")
+	if len(nodes) < 2 || !verifC11Chance(t, "multinode", 18) {
+		return nil
+	}
+	svc := verifC11Pick(t, "mnsvc", vs.ServiceNames)
+	port := verifC11Pick(t, "mnport", []int{8080, 9090, 7070})
+	native := verifC11Chance(t, "mnnative", 25)
+	var ops structs.TxnOps
+	for _, n := range nodes {
+		ns := structs.NodeService{ID: svc + "-1", Service: svc, Port: port, Weights: &structs.Weights{Passing: 1, Warning: 1}}
+		ns.Connect.Native = native
+		ops = append(ops, &structs.TxnOp{Service: &structs.TxnServiceOp{Verb: api.ServiceSet, Node: n.Node, Service: ns}})
+	}
+	return vs.NewTxn(w.gen.NextIdx(t), ops)
 }
 
 // verifC11Retarget sometimes turns a drawn sidecar registration into the registration of ONE fixed sidecar identity
@@ -183,7 +249,7 @@ func verifC11DrawQ(t *rapid.T, w *verifC11World) *verifC11Q {
 			return &q
 		}
 	}
-	if k < 75 {
+	if k < 80 {
 		var ids []string
 		for id := range w.hist {
 			ids = append(ids, id)
@@ -193,6 +259,17 @@ func verifC11DrawQ(t *rapid.T, w *verifC11World) *verifC11Q {
 			q := byID[verifC11Pick(t, "qsame", ids)]
 			return &q
 		}
+	}
+	if k < 90 {
+		// wildcard subjects: their snapshots and many of their live batches carry several events in one buffer item
+		var wild []verifC11Q
+		for _, q := range w.universe {
+			if q.Wild {
+				wild = append(wild, q)
+			}
+		}
+		q := verifC11Pick(t, "qwild", wild)
+		return &q
 	}
 	q := verifC11Pick(t, "qany", w.universe)
 	return &q
